@@ -176,6 +176,34 @@ def inputs(ctx):
             for w in DW:
                 ins.append({"id": "u%d" % n, "writer": w, "prev": _layout_set(a), "set": _layout_set(b), "opts": {}, "force": ""})
                 n += 1
+    # language codes that contain one another, under force= (exactly the named language is written);
+    # balanced style nodes nested in one another, both levels with attributes DFXP can express
+    for codes in (["en", "en-US"], ["en-US", "en"], ["pt-BR", "pt", "p"], ["zh", "zh-Hans", "zh-Hans-CN"]):
+        langs = [{"lang": c, "caps": [{"s": 1000000 * (i + 1), "e": 1000000 * (i + 1) + 500000, "nodes": [["t", "cue of %s" % c]]}]}
+                 for i, c in enumerate(codes)]
+        for w in DW:
+            for force in codes:
+                ins.append({"id": "v%d" % n, "writer": w, "set": {"langs": langs}, "opts": {}, "force": force})
+                n += 1
+    outer_inner = [({"italics": True}, {"color": "red"}), ({"color": "red"}, {"italics": True}), ({"italics": True}, {"bold": True}),
+                   ({"italics": True, "color": "blue"}, {"italics": True}), ({"class": "st1"}, {"italics": True})]
+    for outer, inner in outer_inner:
+        for shape in ("mid", "lead", "trail", "twice"):
+            nodes = [["s", True, dict(outer)]]
+            if shape != "lead":
+                nodes.append(["t", "a "])
+            nodes += [["s", True, dict(inner)], ["t", "b"], ["s", False, dict(inner)]]
+            if shape == "twice":
+                nodes += [["t", " m "], ["s", True, dict(inner)], ["t", "n"], ["s", False, dict(inner)]]
+            if shape != "trail":
+                nodes.append(["t", " c"])
+            nodes.append(["s", False, dict(outer)])
+            nodes.append(["t", " after"])
+            for w in DW:
+                ins.append({"id": "v%d" % n, "writer": w, "set": {"langs": [{"lang": "en-US", "caps": [
+                    {"s": 1000000, "e": 2000000, "nodes": nodes}, {"s": 3000000, "e": 4000000, "nodes": [["t", "next"]]}]}],
+                    "styles": {"st1": {"color": "green"}}}, "opts": {}, "force": ""})
+                n += 1
     # a language without captions is still a written language; cue timing shapes (same start and
     # different ends, equal spans that are not consecutive) for the writers that merge
     for w in DW:
